@@ -489,7 +489,7 @@ def unit(root='/repo'):
                         d is Some && 1 <= d->Some_0.0 <= %(start)d && ((d->Some_0.1.maps is Some) == (d->Some_0.0 >= %(start)d) ==> Vfs::restore_post(*old(self), *final(self), d->Some_0.0, d->Some_0.1)) }) // [C19.restore.all] an image written at root version v by a writer that had VfsState at its version-v layout''' % d]
                  + ['res is Ok ==> final(self).superblocks == old(self).superblocks && final(self).mountpoints == old(self).mountpoints // [C19.restore.frame] backends are not part of the image: the caller re-attaches them'],
                  splices=[('while mount_id_mappings_i < state.mount_id_mappings.len() {', 'replace', INV_LOOP_RESTORE),
-                          ('|s|', 'closure', '|s: IdMappingState| -> (q: (u32, u32, u32))\n                ensures q == (s.internal_id, s.external_id, s.range) // [C19.restore.mapping_fields]\n'),
+                          ('|s|', 'closure?', '|s: IdMappingState| -> (q: (u32, u32, u32))\n                ensures q == (s.internal_id, s.external_id, s.range) // [C19.restore.mapping_fields]\n'),
                           ('Ok(())', 'before', '''proof {
                 let d = snap_dec::<VfsState>(old(buf)@); let i = d->Some_0.1;
                 assert(old(buf)@.take(old(buf)@.len() as int) =~= old(buf)@);
